@@ -36,7 +36,7 @@ Confirm: suite passes with the change; demo exits 1 with the change and 0 withou
 for pid in pids:
     d=props[pid]
     prevs=[]
-    for suf in ['','-2','-3','-4','-5','-6','-7','-8','-9','-10','-11','-12','-13','-14','-15']:
+    for suf in ['','-2','-3','-4','-5','-6','-7','-8','-9','-10','-11','-12','-13','-14','-15','-16']:
         f='/verif/seeded/%s%s/meta.json'%(pid,suf)
         if os.path.exists(f): prevs.append('"%s"'%json.load(open(f))['change'])
     wt='/tmp/w%s_%s'%(rnd,pid)
